@@ -26,15 +26,61 @@ EXPLANATION = (
 ORQ = M.ORQ
 
 
+def _fp_validation_tasks(ctx: Ctx):
+    """(all members, members for which is_fp_validation() holds) read from EvaluationTask itself."""
+    ci = ctx.index.cls("common.evaluation_task.EvaluationTask")
+    members = {t.id for st in ci.node.body if isinstance(st, ast.Assign) for t in st.targets if isinstance(t, ast.Name) and t.id.isupper()}
+    fi = ctx.func("common.evaluation_task.EvaluationTask.is_fp_validation")
+    fpset = set()
+    for n in ast.walk(fi.node):
+        if isinstance(n, ast.Compare) and len(n.ops) == 1 and isinstance(n.ops[0], ast.In) and isinstance(n.left, ast.Name) and n.left.id == "self" and isinstance(n.comparators[0], (ast.Tuple, ast.List, ast.Set)):
+            fpset = {e.attr for e in n.comparators[0].elts if isinstance(e, ast.Attribute)}
+    ctx.require(len(members) >= 4 and fpset and fpset <= members, "EvaluationTask.is_fp_validation: `self in (<members>)` not recognised")
+    named = {m for m in members if m.startswith("FP_VALIDATION")}
+    ctx.check(fpset == named, "C01-emptiness", "EvaluationTask.is_fp_validation", "covers-every-fp-validation-task",
+              f"is_fp_validation() holds for {sorted(fpset)} but the FP-validation tasks of EvaluationTask are {sorted(named)}: for the others unpaired estimates would be kept as GT-less results", fi=fi,
+              expected=str(sorted(named)), found=str(sorted(fpset)))
+    return members, fpset
+
+
+def _fp_flag(f, members, fpset):
+    """FP-validation flag on a path: True / False when decided, else None; second value: the partial test that left it undecided."""
+    v = f.get("call:evaluation_task.is_fp_validation()")
+    if v is not None:
+        return v, None
+    possible = set(members)
+    tested = []
+    for k, val in f.items():
+        m = re.match(r"^(?:eq|same):(?:evaluation_task==EvaluationTask\.(\w+)|EvaluationTask\.(\w+)==evaluation_task)$", k.replace(" ", ""))
+        if m:
+            x = m.group(1) or m.group(2)
+            possible &= ({x} if val else (members - {x}))
+            tested.append(k.split(":", 1)[1])
+            continue
+        m = re.match(r"^in:evaluation_taskin[\(\[\{](.*?),?[\)\]\}]$", k.replace(" ", ""))
+        if m:
+            xs = {t.split(".")[-1] for t in m.group(1).split(",") if t}
+            possible &= (xs if val else (members - xs))
+            tested.append(k.split(":", 1)[1])
+    if not tested:
+        return None, None
+    if possible <= fpset:
+        return True, None
+    if not (possible & fpset):
+        return False, None
+    return None, f"`{tested[0]}` leaves {sorted(possible & fpset)} among the tasks of this path"
+
+
 def rule_emptiness(ctx: Ctx) -> None:
     fi = ctx.func(ORQ + "get_object_results")
     paths = enum_paths(ctx, fi)
     rows = 0
+    members, fpset = _fp_validation_tasks(ctx)
     for p in paths:
         f = {strip_v(k): v for k, v in p.facts.items()}
         est = f.get("truthy:estimated_objects")
         gt = f.get("truthy:ground_truth_objects")
-        fpv = f.get("call:evaluation_task.is_fp_validation()")
+        fpv, partial = _fp_flag(f, members, fpset)
         # indexing an empty list
         for name, val in (("estimated_objects", est), ("ground_truth_objects", gt)):
             if val is False:
@@ -50,8 +96,8 @@ def rule_emptiness(ctx: Ctx) -> None:
             "_get_fp_object_results(" in S(e.value if e.kind == "aug" else (e.args[0] if e.args else None) or ast.Constant(value=0))
             for e in p.effects if (e.kind == "aug" and e.recv == "object_results") or (e.kind == "call" and e.recv == "object_results" and e.name == "extend"))
         if makes_fp and fpv is not False and est is not False:
-            ctx.violate("C01-emptiness", "get_object_results", f"gt-less-results:fpv={fpv}",
-                        f"on [{p.cond_text()[:120]}] unpaired estimates become GT-less results " + ("in FP-validation mode" if fpv else "without looking at the FP-validation flag") + "; in FP validation unpaired estimates must be dropped",
+            ctx.violate("C01-emptiness", "get_object_results", f"gt-less-results:fpv={fpv}" + (":partial-test" if partial else ""),
+                        f"on [{p.cond_text()[:120]}] unpaired estimates become GT-less results " + ("in FP-validation mode" if fpv else f"although the task can still be an FP-validation task ({partial}; is_fp_validation() covers {sorted(fpset)})" if partial else "without looking at the FP-validation flag") + "; in FP validation unpaired estimates must be dropped",
                         fi=fi, expected="no GT-less results unless `not evaluation_task.is_fp_validation()`", found=rv[:80])
             continue
         if est is False:
@@ -115,8 +161,10 @@ def rule_fp_results(ctx: Ctx) -> None:
         return
     ctx.require(len(lps) == 1 and S(lps[0].text) == "estimated_objects", "_get_fp_object_results: map loop over estimated_objects not recognised")
     var = U(lps[0].node.target)
+    acc = "object_results"
     for bp in lps[0].body:
-        ap = [e for e in appends(bp) if e.recv == "object_results"]
+        ap = appends(bp)
+        acc = ap[0].recv if len(ap) == 1 else acc  # the list that is built, whatever it is called
         ok = len(ap) == 1 and bp.exit == ("fall",) and not bp.conds
         if ok:
             v = ap[0].args[0]
@@ -128,7 +176,7 @@ def rule_fp_results(ctx: Ctx) -> None:
                 ok = e0 is not None and S(e0) == var and g0 is not None and isinstance(g0, ast.Constant) and g0.value is None
         ctx.check(ok, "C01-fp-results", "_get_fp_object_results", "map", "not exactly one GT-less result per estimate, unconditionally and in order", fi=fi)
     for p in paths:
-        ctx.check(p.retval is not None and S(p.retval) == "object_results", "C01-fp-results", "_get_fp_object_results", "returns", "does not return the list it built", fi=fi)
+        ctx.check(p.retval is not None and strip_v(S(p.retval)) == acc, "C01-fp-results", "_get_fp_object_results", "returns", "does not return the list it built", fi=fi)
 
 
 def rule_inputs_untouched(ctx: Ctx) -> None:
